@@ -65,7 +65,12 @@ func (n Node) value() any {
 type MScript struct {
 	Sources []Node `json:"sources"`
 	Mode    string `json:"mode"`
-	Probe   bool   `json:"probe,omitempty"` // re-observe a listed finding instead of excluding its shape
+	// Order is the URI list AS GIVEN to the resolver: indices into Sources, with repetition
+	// ([A,B,A], [B,A,empty,B]); empty = every source once, in order.  Bare[i]: the i-th URI is
+	// spelled without its scheme ("s1" instead of "file:s1" -- NewResolver: "An empty <scheme> defaults to file").
+	Order []int  `json:"order,omitempty"`
+	Bare  []bool `json:"bare,omitempty"`
+	Probe bool   `json:"probe,omitempty"` // re-observe a listed finding instead of excluding its shape
 }
 
 var (
@@ -166,7 +171,32 @@ func genM(t *rapid.T) MScript {
 		}
 		s.Sources = append(s.Sources, genNode(t, 0, true))
 	}
+	// the URI list: usually every source once; otherwise drawn from the pool WITH repetition
+	if rapid.IntRange(0, 2).Draw(t, "listkind") != 0 {
+		for i := range s.Sources {
+			s.Order = append(s.Order, i)
+		}
+	} else {
+		for i, n := 0, rapid.IntRange(2, 5).Draw(t, "nuris"); i < n; i++ {
+			s.Order = append(s.Order, rapid.IntRange(0, len(s.Sources)-1).Draw(t, "uri"))
+		}
+	}
+	for range s.Order {
+		s.Bare = append(s.Bare, rapid.IntRange(0, 3).Draw(t, "bare") == 0)
+	}
 	return s
+}
+
+// order is the URI list as indices (default: every source once).
+func (s *MScript) order() []int {
+	if len(s.Order) > 0 {
+		return s.Order
+	}
+	o := make([]int, len(s.Sources))
+	for i := range o {
+		o[i] = i
+	}
+	return o
 }
 
 // refMerge is the reference: recursive, right-biased; maps merge key by key,
@@ -288,7 +318,26 @@ func judgeM(s *MScript) (bool, *vt.Finding) {
 	stats := map[string]int{}
 	want := map[string]any{}
 	nonEmpty := 0
-	for _, v := range views {
+	order := s.order()
+	for _, i := range order {
+		if i < 0 || i >= len(views) {
+			cM.Exclude("discard:bad-order")
+			return false, nil
+		}
+	}
+	// the reference merges the list AS GIVEN, repetitions included
+	lastAt := map[int]int{}
+	for pos, i := range order {
+		if p, seen := lastAt[i]; seen {
+			stats["repeated-source"] = 1
+			if pos-p > 1 {
+				stats["repeated-source-with-other-between"] = 1
+			}
+		}
+		lastAt[i] = pos
+	}
+	for _, i := range order {
+		v := views[i]
 		if len(v) == 0 {
 			stats["empty-source"]++
 		} else {
@@ -297,9 +346,9 @@ func judgeM(s *MScript) (bool, *vt.Finding) {
 		refMerge(want, v, stats, 0)
 	}
 	// run the real thing; every Retrieve hands out a fresh copy (Merge may modify its input)
-	fac := factory("src", func(uri string) (*confmap.Retrieved, error) {
+	fac := factory("file", func(uri string) (*confmap.Retrieved, error) {
 		var i int
-		if _, err := fmt.Sscanf(uri, "src:%d", &i); err != nil || i >= len(views) {
+		if _, err := fmt.Sscanf(uri, "file:s%d", &i); err != nil || i >= len(views) {
 			return nil, fmt.Errorf("no source %q", uri)
 		}
 		switch {
@@ -311,8 +360,13 @@ func judgeM(s *MScript) (bool, *vt.Finding) {
 		return confmap.NewRetrieved(deepCopy(views[i]))
 	})
 	var uris []string
-	for i := range views {
-		uris = append(uris, fmt.Sprintf("src:%d", i))
+	for pos, i := range order {
+		if pos < len(s.Bare) && s.Bare[pos] {
+			uris = append(uris, fmt.Sprintf("s%d", i)) // no scheme: "file"
+			stats["bare-uri"] = 1
+		} else {
+			uris = append(uris, fmt.Sprintf("file:s%d", i))
+		}
 	}
 	o := resolve(uris, "", []confmap.ProviderFactory{fac})
 	var cls []string
@@ -321,7 +375,7 @@ func judgeM(s *MScript) (bool, *vt.Finding) {
 			cls = append(cls, k)
 		}
 	}
-	cls = append(cls, fmt.Sprintf("merge-depth:%d", stats["merge-depth"]), fmt.Sprintf("sources:%d", len(views)), "mode:"+s.Mode)
+	cls = append(cls, fmt.Sprintf("merge-depth:%d", stats["merge-depth"]), fmt.Sprintf("uris:%d", len(order)), "mode:"+s.Mode)
 	sort.Strings(cls)
 	cM.Class(cls...)
 	overlap := stats["map-into-map"]+stats["list-replaces-list"]+stats["nil-replaces-map"]+stats["scalar-or-list-replaces-map"]+
@@ -329,8 +383,9 @@ func judgeM(s *MScript) (bool, *vt.Finding) {
 	nontrivial := nonEmpty >= 2 && overlap
 	desc := func() string {
 		var b strings.Builder
+		fmt.Fprintf(&b, " uri list %v;", uris)
 		for i, v := range views {
-			fmt.Fprintf(&b, " source %d: %#v;", i, v)
+			fmt.Fprintf(&b, " source s%d: %#v;", i, v)
 		}
 		return b.String()
 	}
